@@ -206,4 +206,202 @@ theorem convUtim_print (t : DateTime) (hv : validDate t.y t.mo t.d) (hh : t.h < 
   have h5 : (t.h * 3600 + t.mi * 60 + t.s) % 60 = t.s := by omega
   simp only [h3, h4, h5]
 
+/-! ### float() -/
+
+theorem splitSign_signStr (sg : Option Bool) (b : Str) (hb : ∀ a r, b = a :: r → a ≠ 45 ∧ a ≠ 43) :
+    splitSign (signStr sg ++ b) = (decide (sg = some true), b) := by
+  cases sg with
+  | none => simpa [signStr] using splitSign_digit b hb
+  | some v => cases v <;> simp [signStr, splitSign]
+
+def expPart (e : Option (Bool × Option Bool × List Nat)) : Str :=
+  match e with
+  | none => []
+  | some (cap, sg, ds) => (if cap then 69 else 101) :: (signStr sg ++ chars ds)
+
+def expVal (e : Option (Bool × Option Bool × List Nat)) : Int :=
+  match e with
+  | none => 0
+  | some (_, sg, ds) => if sg = some true then -((ofDigits ds : Nat) : Int) else ((ofDigits ds : Nat) : Int)
+
+theorem parseExp_expPart (e : Option (Bool × Option Bool × List Nat))
+    (h : ∀ v, e = some v → v.2.2 ≠ [] ∧ isDigits v.2.2) : parseExp (expPart e) = some (expVal e) := by
+  cases e with
+  | none => rfl
+  | some v =>
+    obtain ⟨cap, sg, ds⟩ := v
+    obtain ⟨hne, hd⟩ := h _ rfl
+    simp only at hne hd
+    have hs : splitSign (signStr sg ++ chars ds) = (decide (sg = some true), chars ds) := by
+      apply splitSign_signStr
+      intro a r heq
+      have := chars_head ds hd a r heq
+      omega
+    have hc : (if cap then 69 else 101) = 101 ∨ (if cap then 69 else 101) = 69 := by cases cap <;> simp
+    simp only [expPart, parseExp, expVal]
+    rw [if_pos hc, hs]
+    simp only []
+    rw [if_neg (by rw [chars_eq_nil]; exact hne), if_pos (chars_all ds hd), chars_digitVal]
+    by_cases hsg : sg = some true <;> simp [hsg]
+
+theorem expPart_head (e : Option (Bool × Option Bool × List Nat)) : ∀ a r, expPart e = a :: r → a = 69 ∨ a = 101 := by
+  intro a r h
+  cases e with
+  | none => simp [expPart] at h
+  | some v =>
+    obtain ⟨cap, sg, ds⟩ := v
+    simp only [expPart, List.cons.injEq] at h
+    cases cap <;> simp at h <;> omega
+
+def fracPart (f : Option (List Nat)) : Str :=
+  match f with
+  | none => []
+  | some fp => 46 :: chars fp
+
+theorem printNum_eq (x : Num) : printNum x = signStr x.sign ++ (chars x.ip ++ (fracPart x.frac ++ expPart x.exp)) := by
+  unfold printNum fracPart expPart
+  cases x.frac <;> cases x.exp <;> simp
+
+theorem parseDecBody_nodot (neg : Bool) (ip : List Nat) (e : Option (Bool × Option Bool × List Nat))
+    (hip : isDigits ip) (hne : ip ≠ []) (hexp : ∀ v, e = some v → v.2.2 ≠ [] ∧ isDigits v.2.2) :
+    parseDecBody neg (chars ip ++ expPart e) = some (.fin neg (ofDigits ip) (expVal e - 0)) := by
+  have hrest : ∀ a r, expPart e = a :: r → isDigit a = false := by
+    intro a r heq
+    have := expPart_head _ a r heq
+    simp [isDigit]; omega
+  obtain ⟨ht, hdw⟩ := takeWhile_run (p := isDigit) (chars ip) _ (chars_isDigit _ hip) hrest
+  have hm : ∀ t, expPart e ≠ 46 :: t := by
+    intro t heq
+    have := expPart_head _ _ _ heq
+    omega
+  have h1 : fracOf (expPart e) = [] := by
+    unfold fracOf
+    split
+    · exact absurd ‹_› (hm _)
+    · rfl
+  have h2 : afterFrac (expPart e) = expPart e := by
+    unfold afterFrac
+    split
+    · exact absurd ‹_› (hm _)
+    · rfl
+  have h3 : ¬ (chars ip = [] ∧ True) := by
+    rw [chars_eq_nil]; simp; exact hne
+  unfold parseDecBody
+  simp only [ht, hdw, h1, h2, parseExp_expPart _ hexp, List.append_nil, chars_digitVal, List.length_nil]
+  rw [if_neg h3]
+  rfl
+
+theorem parseDecBody_dot (neg : Bool) (ip fp : List Nat) (e : Option (Bool × Option Bool × List Nat))
+    (hip : isDigits ip) (hfp : isDigits fp) (hne : ip ≠ [] ∨ fp ≠ [])
+    (hexp : ∀ v, e = some v → v.2.2 ≠ [] ∧ isDigits v.2.2) :
+    parseDecBody neg (chars ip ++ 46 :: (chars fp ++ expPart e)) =
+      some (.fin neg (ofDigits (ip ++ fp)) (expVal e - (fp.length : Int))) := by
+  have hrest : ∀ a r, 46 :: (chars fp ++ expPart e) = a :: r → isDigit a = false := by
+    intro a r heq
+    simp only [List.cons.injEq] at heq
+    simp [isDigit]; omega
+  obtain ⟨ht, hdw⟩ := takeWhile_run (p := isDigit) (chars ip) _ (chars_isDigit _ hip) hrest
+  have hrest2 : ∀ a r, expPart e = a :: r → isDigit a = false := by
+    intro a r heq
+    have := expPart_head _ a r heq
+    simp [isDigit]; omega
+  obtain ⟨ht2, hdw2⟩ := takeWhile_run (p := isDigit) (chars fp) _ (chars_isDigit _ hfp) hrest2
+  have h3 : ¬ (chars ip = [] ∧ chars fp = []) := by
+    rw [chars_eq_nil, chars_eq_nil]; intro h; rcases hne with h1 | h1; exact h1 h.1; exact h1 h.2
+  have hlen : (chars fp).length = fp.length := by simp [chars]
+  unfold parseDecBody
+  simp only [ht, hdw, fracOf, afterFrac, ht2, hdw2, parseExp_expPart _ hexp, if_neg h3, ← chars_append, chars_digitVal, hlen]
+
+theorem parseDecBody_print (neg : Bool) (x : Num) (h : x.wf) :
+    parseDecBody neg (chars x.ip ++ (fracPart x.frac ++ expPart x.exp)) =
+      some (.fin neg (ofDigits (x.ip ++ x.frac.getD [])) (expVal x.exp - ((x.frac.getD []).length : Int))) := by
+  obtain ⟨hip, hfp, hne, hexp⟩ := h
+  cases hf : x.frac with
+  | none =>
+    rw [hf] at hne
+    have hne' : x.ip ≠ [] := by simpa using hne
+    simpa [fracPart] using parseDecBody_nodot neg x.ip x.exp hip hne' hexp
+  | some fp =>
+    rw [hf] at hne hfp
+    simpa [fracPart] using parseDecBody_dot neg x.ip fp x.exp hip hfp hne hexp
+
+theorem body_head (x : Num) (h : x.wf) : ∀ a r, chars x.ip ++ (fracPart x.frac ++ expPart x.exp) = a :: r →
+    a = 46 ∨ (48 ≤ a ∧ a ≤ 57) := by
+  obtain ⟨hip, hfp, hne, _⟩ := h
+  intro a r heq
+  cases hi : x.ip with
+  | cons d t =>
+    rw [hi] at heq hip
+    have hd : d < 10 := hip d (by simp)
+    simp [chars] at heq
+    omega
+  | nil =>
+    rw [hi] at heq hne
+    cases hf : x.frac with
+    | none => rw [hf] at hne; simp at hne
+    | some fp =>
+      rw [hf] at heq
+      simp [chars, fracPart] at heq
+      omega
+
+theorem parseFloat_printNum (x : Num) (h : x.wf) : parseFloat (printNum x) = some x.value := by
+  have hh := body_head x h
+  obtain ⟨hip, hfp, hne, hexp⟩ := h
+  have hval : x.value = .fin (decide (x.sign = some true)) (ofDigits (x.ip ++ x.frac.getD []))
+      (expVal x.exp - ((x.frac.getD []).length : Int)) := by
+    unfold Num.value expVal
+    cases x.exp <;> rfl
+  rw [hval, printNum_eq]
+  have hnc : (signStr x.sign ++ (chars x.ip ++ (fracPart x.frac ++ expPart x.exp))).contains 95 = false := by
+    apply not_contains
+    intro c hc
+    simp only [List.mem_append] at hc
+    rcases hc with hc | hc | hc | hc
+    · cases hs : x.sign with
+      | none => rw [hs] at hc; simp [signStr] at hc
+      | some v => rw [hs] at hc; cases v <;> simp [signStr] at hc <;> omega
+    · exact chars_ne _ hip 95 (by omega) c hc
+    · cases hf : x.frac with
+      | none => rw [hf] at hc; simp [fracPart] at hc
+      | some fp =>
+        rw [hf] at hc hfp
+        simp only [fracPart, List.mem_cons] at hc
+        rcases hc with hc | hc
+        · omega
+        · exact chars_ne _ hfp 95 (by omega) c hc
+    · cases he : x.exp with
+      | none => rw [he] at hc; simp [expPart] at hc
+      | some v =>
+        obtain ⟨cap, sg, ds⟩ := v
+        rw [he] at hc
+        obtain ⟨_, hds⟩ := hexp _ he
+        simp only [expPart, List.mem_cons, List.mem_append] at hc
+        rcases hc with hc | hc | hc
+        · cases cap <;> simp at hc <;> omega
+        · cases sg with
+          | none => simp [signStr] at hc
+          | some v => cases v <;> simp [signStr] at hc <;> omega
+        · exact chars_ne _ hds 95 (by omega) c hc
+  have hs : splitSign (signStr x.sign ++ (chars x.ip ++ (fracPart x.frac ++ expPart x.exp))) =
+      (decide (x.sign = some true), chars x.ip ++ (fracPart x.frac ++ expPart x.exp)) := by
+    apply splitSign_signStr
+    intro a r heq
+    have := hh a r heq
+    omega
+  unfold parseFloat
+  rw [hnc]
+  simp only [Bool.false_eq_true, if_false, hs]
+  -- not one of the special words: the body starts with a digit or '.'
+  generalize hb : chars x.ip ++ (fracPart x.frac ++ expPart x.exp) = body at *
+  have hlow : ¬ (body.map lower = sInf ∨ body.map lower = sInfinity) ∧ ¬ (body.map lower = sNan) := by
+    cases body with
+    | nil => simp [sInf, sInfinity, sNan]
+    | cons a r =>
+      have ha := hh a r rfl
+      have hl : lower a = a := by unfold lower; rw [if_neg (by omega)]
+      simp only [List.map_cons, hl, sInf, sInfinity, sNan, List.cons.injEq]
+      omega
+  rw [if_neg hlow.1, if_neg hlow.2, ← hb]
+  exact parseDecBody_print _ x ⟨hip, hfp, hne, hexp⟩
+
 end TD.C14
